@@ -1,0 +1,11 @@
+//go:build verif
+
+// Contracts for package regex (comment-only file).
+package regex
+
+// MatchString: some expression of the list matches (regular expression matching is an uninterpreted
+// pure function rematch).
+//@ func (Regexes).MatchString
+//@   modifies nothing
+//@   ensures result <==> (exists i int :: 0 <= i && i < len(rf) && rematch(rf[i], s))
+//@   loop 1 invariant 0 <= $i && $i <= len(rf) && (forall j int :: {rf[j]} 0 <= j && j < $i ==> !rematch(rf[j], s))
